@@ -64,7 +64,7 @@ CHECKS = [
     dict(id="C09",
          text='TLC-generated histories with delete-repo, rename-repo and delete-files over prefix-related repositories sharing content; the complete projection of both metadata stores is compared with the specification after every step (frame conditions also model-checked: AtMostTwoReposTouched)',
          design_ref="§3 C09",
-         note='Trusted: TLC, the projection (real store -> abstract state), the in-memory object store (checked against ObjectStore.tla), harness-chosen KSUIDs. Bounds: 3 prefix-related repos, 7 paths incl. generated decoys, 4 contents, <= 5-7 bundles, histories of 12-14 steps (random walks); 1000/1001-file bundles in a separate small run. Concurrent creators of one repository: ObjectStore exclusive put (C16) + CreateRepo result compare; the gate-scheduled variant is planned',
+         note='Trusted: TLC, the projection (real store -> abstract state), the in-memory object store (checked against ObjectStore.tla), harness-chosen KSUIDs. Bounds: 3 prefix-related repos, 7 paths incl. generated decoys, 4 contents, <= 5-7 bundles, histories of 12-14 steps (random walks); 1000/1001-file bundles in a separate small run. Concurrent creators: all interleavings of the store calls of 2-3 (4) concurrent CreateRepo under the gate scheduler, traces validated by CreateRepoTrace.tla (ExactlyOneWinner)',
          technique='TLA+ model checking (TLC) of Meta.tla + replay of TLC-generated API behaviours on pkg/core with state projection compare'),
     dict(id="C10",
          text='Meta!KeepSet (model-checked: SquashKeepsLatest) against RepoSquash on TLC-generated histories with leftovers of uploads interrupted at every metadata write, semver / non-semver labels, retain-N 1..3 and every retain-tags mode; kept bundles downloaded',
